@@ -199,13 +199,21 @@ func (fx *FuncExec) run() {
 			}
 			fx.counters["ensures"]++
 			k := fx.counters["ensures"]
+			dup := 0
+			if en.Label != "" {
+				fx.counters["ensures/"+en.Label]++
+				dup = fx.counters["ensures/"+en.Label]
+			}
 			for ri, rs := range retStates {
 				env := fx.specEnv(rs, fx.entry, fx.bodyPos(), "ensures")
 				fx.bindResults(env, rs)
 				g := env.Bool(en.Expr)
 				name := fmt.Sprintf("%s/ensures#%d", fx.fi.Key, k)
 				if en.Label != "" {
-					name += "/" + en.Label
+					name = fmt.Sprintf("%s/ensures/%s", fx.fi.Key, en.Label)
+					if dup > 1 {
+						name += fmt.Sprintf("~%d", dup)
+					}
 				}
 				if len(retStates) > 1 {
 					name += fmt.Sprintf("@ret%d", ri+1)
